@@ -927,7 +927,7 @@ META = {
                   "every parser (typed leaves under nested groups), configuration and variant (yaml/json, nulls kept or "
                   "dropped, skip_default; i.e. dump, print_config, save) inside the guard, if each leaf value survives its own "
                   "serialise/parse pair then dump -> text -> parse returns the configuration value for value and type for type. "
-                  "Seven _refuted witnesses show the unguarded statement false of the faithful model. Exercised by the "
+                  "Eight _refuted witnesses show the unguarded statement false of the faithful model. Exercised by the "
                   "correspondence only: that each accepted leaf value survives serialise/parse (leaf_stable is a premise of "
                   "(P), evaluated per case over the whole type grammar incl. Union/Literal/Enum/Set/Dict[int]/dataclass-typed values/subclass specs with dict_kwargs), the real "
                   "dump / --print_config / save+parse_path paths, nested groups, and the model itself (data handed to the "
@@ -936,7 +936,7 @@ META = {
                   "jfloat_text_ok; checked per observed float by the judge) and per-leaf stability; PyYAML's emitter/scanner "
                   "are trusted for document structure and for the characters of a scalar (known false for U+0085 and, from "
                   "JSON text, C1 controls / U+FFFE / U+FFFF / U+2028-9: finding unprintable-str). yaml_comments output "
-                  "(re-emitted by ruyaml) is not modelled (finding comments-reemit). Nine open findings are guarded by class (Model/C01Guard.v classes 1,3-10); class 11 (skip_default pruned a subclass spec's init_args) is outside the proved statement without being a finding: failures there are violations. Histories on one parser object (dump, parse, set_defaults, default config file) are exercised by the correspondence only "
+                  "(re-emitted by ruyaml) is not modelled (finding comments-reemit). Ten open findings are guarded by class (Model/C01Guard.v classes 1,3-10,12); class 11 (skip_default pruned a subclass spec's init_args) is outside the proved statement without being a finding: failures there are violations. Histories on one parser object (dump, parse, set_defaults, default config file) are exercised by the correspondence only "
                   "(Model/C01Guard.v) and reported as KNOWN-FINDING. parser_mode yaml only; no dataclasses expanded as groups, no subclass specs inside containers or with nested class parameters, "
                   "subcommands, links, toml/jsonnet; a dataclass directly as the type of a leaf (behaves as an expanded group) is outside the space. No axioms (Print Assumptions: closed under the global context).",
     "technique": "Rocq proof: verified regex-inclusion certificates over regenerated resolver tables + structural induction on "
